@@ -6,6 +6,7 @@ import (
 	"io/ioutil"
 	"os"
 	"path/filepath"
+	"regexp"
 	"sort"
 	"strings"
 	"sync"
@@ -217,7 +218,7 @@ func CheckC17(env *core.Env, rep *core.Report) *core.Result {
 			want = append(want, fmt.Sprintf("t%d", k))
 		}
 		want = append(want, extra...)
-		got := lines(res.Stdout)
+		got := taskNamesIn(res.Stdout)
 		sort.Strings(got)
 		sort.Strings(want)
 		if strings.Join(got, ",") != strings.Join(want, ",") {
@@ -300,7 +301,7 @@ func CheckC17(env *core.Env, rep *core.Report) *core.Result {
 			for _, k := range c.Closure {
 				want = append(want, fmt.Sprintf("t%d", k))
 			}
-			got := lines(res.Stdout)
+			got := taskNamesIn(res.Stdout)
 			sort.Strings(got)
 			sort.Strings(want)
 			if res.Exit != 0 || strings.Join(got, ",") != strings.Join(want, ",") {
@@ -357,7 +358,7 @@ func CheckC17(env *core.Env, rep *core.Report) *core.Result {
 				split[d] = "project"
 			}
 		}
-		ok := res.Exit == 0 && strings.Contains(res.Stdout, "- tg") && strings.Contains(res.Stdout, "- tp") && strings.Contains(res.Stdout, "- cg") && strings.Contains(res.Stdout, "- usev")
+		ok := res.Exit == 0 && hasWord(res.Stdout, "tg") && hasWord(res.Stdout, "tp") && hasWord(res.Stdout, "cg") && hasWord(res.Stdout, "usev")
 		okv := run.Exit == 0 && strings.Contains(run.Stdout, "OBS vgvalue") && strings.Contains(run.Stdout, "tg Q=1") && strings.Contains(run.Stdout, "tp Q=1")
 		if !ok || !okv {
 			rep.Add(core.Finding{Prop: "C17", Key: "C17:global:definition-not-available", What: fmt.Sprintf("definitions split %v: list ok=%v (exit %d), variable and context usable by the tasks=%v (exit %d: %s)", split, ok, res.Exit, okv, run.Exit, lastLine(run.Stderr)),
@@ -367,4 +368,24 @@ func CheckC17(env *core.Env, rep *core.Report) *core.Result {
 	return e.result("model_checking", int(n), len(sel)+len(rcases), "every import graph over 2 files and (quick ~9%, thorough all) over 3 files - every edge set incl. self-loops and cycles - x one file missing / unparsable at every position, from ImportsGen.tla with the intended closure; materialised as nested directories (file i at depth (i-1) mod 3, relative import paths), a quarter with a repeated entry, a quarter with a directory import and a quarter with a directory import one of whose files has an import of its own; seeded random graphs of 4..6 files; all 16 splits of {task, task, context, variable} between the global and the project file",
 		map[string]interface{}{"model_cases": len(cases), "cases_run": len(sel), "random_graphs": len(rcases), "global_splits": 16},
 		[]string{"URL imports are not exercised (no network)", "loading must terminate within 10 s (nominal: milliseconds); the model proves termination, so a timeout is a verdict"})
+}
+
+// The layout of `list` is nobody's business: the names are looked for as whole words, wherever
+// and however they are printed.  Every task the import cases define is called t<digit><letters>.
+var reTaskName = regexp.MustCompile(`\bt\d+[a-z]*\b`)
+
+func taskNamesIn(out string) []string {
+	seen := map[string]bool{}
+	var names []string
+	for _, m := range reTaskName.FindAllString(out, -1) {
+		if !seen[m] {
+			seen[m] = true
+			names = append(names, m)
+		}
+	}
+	return names
+}
+
+func hasWord(out, w string) bool {
+	return regexp.MustCompile(`(^|[^A-Za-z0-9_])` + regexp.QuoteMeta(w) + `($|[^A-Za-z0-9_])`).MatchString(out)
 }
